@@ -32,10 +32,36 @@ def same_pipeline(rep):
                       'sqlparse.engine.filter_stack.FilterStack.run', ok, {}, undecided_if_false=True)
 
 
+def whitespace_agreement(rep):
+    """split() removes blanks with str.strip() while the splitter decides "nothing but whitespace left" by token type:
+    the two notions must agree.  Exhaustive over the finite set of str.isspace characters, on the real lexer."""
+    from pyvc.core import import_repo
+    import_repo()
+    from sqlparse import lexer, tokens as T
+    chars = [chr(c) for c in range(0x110000) if chr(c).isspace()]
+    bad = []
+    for c in chars:
+        toks = list(lexer.tokenize(c))
+        if not (len(toks) == 1 and toks[0][0] in T.Whitespace and toks[0][1] == c):
+            bad.append(c)
+    o = common.structural(rep, 'C04/lexer/every str.isspace character lexes as one Whitespace token (exhaustive, %d characters)'
+                          % len(chars), 'sqlparse.keywords.SQL_REGEX', not bad, {'not whitespace tokens': [repr(c) for c in bad]})
+    if bad:
+        from pyvc import oracles
+        for text in ('select 1;' + bad[0], bad[0]):
+            try:
+                r = oracles.oracle_C04(text)
+            except Exception:       # noqa
+                r = None
+            if r is not None:
+                o.witness = {'input': text, 'failure': r, 'reproduced': True}
+                break
+
+
 def run(rep):
     return generic.run_generic(
         rep, [(GET_TOKENS, 'text is str'), (tc.GT, 'new group'), (tc.GT, 'extend flag')],
-        structural=[splitter_obligations, same_pipeline, tc.grouping_frame, tc.flatten_and_str],
+        structural=[splitter_obligations, same_pipeline, whitespace_agreement, tc.grouping_frame, tc.flatten_and_str],
         assumptions=['str.strip() removes exactly a maximal whitespace prefix and suffix',
                      're-splitting a returned piece gives that piece: bounded stand-in only (lexing a piece out of context '
                      'is regex semantics)',
